@@ -1,2 +1,341 @@
-(* Proofs for property C11. *)
-From SC.Model Require Import Base.
+(* Proofs for property C11 (clock times and zones).
+
+   1. print_*            the printed HH:MM:SS is the wall time of the instant in the display zone
+   2. zone rules         time_with_timezone re-anchors a wall time, convert_timezone keeps the instant
+   3. convert_shows      composition: `T ZONE_A to ZONE_B` prints shown w a b, for all offsets
+   4. calc_*             T +/- duration moves the clock modulo 24 h; T1 to T2 = |t1 - t2|
+   5. literal_*          time_body: the token of a literal under a default zone
+   6. zone table         every expressible table zone / GMT form is lexed with its offset (finite table)
+   7. default zone       set_timezone / get_time_offset steps of the operation machine
+   8. examples           whole-pipeline runs by vm_compute *)
+From Coq Require Import ZArith Lia Floats.
+From SC.Model Require Import Base Num NumF64 Types Config Case Chrono Regex Rx Parser RuleFns Items Format Lexer Api Run64 Corr.
+From SC.Spec Require Import Clock.
+From SC.Gen Require Import RustConsts ConfigData Regexes.
+
+Ltac Zify.zify_post_hook ::= Z.to_euclidean_division_equations.
+
+(* ------------------------------------------------------------------------------------- *)
+(* 0. arithmetic of the spec                                                              *)
+(* ------------------------------------------------------------------------------------- *)
+Lemma clock_of_ok t off : wall_ok (clock_of t off).
+Proof. unfold wall_ok, clock_of, DAY_SECS. lia. Qed.
+
+Lemma shown_ok w a b : wall_ok (shown w a b).
+Proof. unfold wall_ok, shown, DAY_SECS. lia. Qed.
+
+Lemma clock_parts w : wall_ok w ->
+  0 <= w / 3600 < 24 /\ 0 <= (w / 60) mod 60 < 60 /\ 0 <= w mod 60 < 60 /\
+  w = wall_of (w / 3600) ((w / 60) mod 60) (w mod 60).
+Proof. unfold wall_ok, wall_of, DAY_SECS. lia. Qed.
+
+Lemma wall_of_ok h m sec : 0 <= h < 24 -> 0 <= m < 60 -> 0 <= sec < 60 -> wall_ok (wall_of h m sec).
+Proof. unfold wall_ok, wall_of, DAY_SECS. lia. Qed.
+
+(* the clock of an instant built from a wall time in a zone, shown in another zone *)
+Lemma clock_of_instant day w a b : clock_of (instant_of day w a) b = shown w a b.
+Proof.
+  unfold clock_of, instant_of, shown, DAY_SECS.
+  replace (day * 86400 + w - 60 * a + 60 * b) with ((w - 60 * a + 60 * b) + day * 86400) by ring.
+  apply Z.mod_add. lia.
+Qed.
+
+Lemma shown_same w a : wall_ok w -> shown w a a = w.
+Proof. unfold wall_ok, shown, DAY_SECS. intro H. replace (w - 60 * a + 60 * a) with w by ring. apply Z.mod_small. lia. Qed.
+
+(* converting there and back is the identity; conversions compose *)
+Lemma shown_compose w a b c : shown (shown w a b) b c = shown w a c.
+Proof.
+  unfold shown, DAY_SECS.
+  replace ((w - 60 * a + 60 * b) mod 86400 - 60 * b + 60 * c)
+    with ((w - 60 * a + 60 * b) mod 86400 + (- 60 * b + 60 * c)) by ring.
+  rewrite Zplus_mod_idemp_l. f_equal. ring.
+Qed.
+
+Lemma shown_roundtrip w a b : wall_ok w -> shown (shown w a b) b a = w.
+Proof. intro H. rewrite shown_compose. apply shown_same. exact H. Qed.
+
+(* ------------------------------------------------------------------------------------- *)
+(* 1. printing                                                                            *)
+(* ------------------------------------------------------------------------------------- *)
+Lemma pad2_table :
+  forallb (fun n => str_eqb (pad2 (Z.of_nat n)) (two_digits (Z.of_nat n))) (seq 0 100) = true.
+Proof. vm_compute. reflexivity. Qed.
+
+Lemma pad2_two z : 0 <= z < 100 -> pad2 z = two_digits z.
+Proof.
+  intro H. pose proof pad2_table as T. rewrite forallb_forall in T.
+  specialize (T (Z.to_nat z)). rewrite Z2Nat.id in T by lia.
+  apply str_eqb_eq. apply T. apply in_seq. lia.
+Qed.
+
+Lemma hms_text w : wall_ok w -> hms w = clock_text w.
+Proof.
+  intro H. destruct (clock_parts w H) as (Hh & Hm & Hs & _).
+  unfold hms, clock_text. rewrite !pad2_two by lia. reflexivity.
+Qed.
+
+(* for ALL instants and ALL display offsets *)
+Theorem print_clock t tz :
+  time_print t tz = clock_text (clock_of t (tz_off tz)) ++ 32%N :: tz_name tz.
+Proof.
+  unfold time_print, secs_of_day.
+  replace (t + tz_off tz * 60) with (t + 60 * tz_off tz) by ring.
+  change ((t + 60 * tz_off tz) mod 86400) with (clock_of t (tz_off tz)).
+  rewrite hms_text by apply clock_of_ok. reflexivity.
+Qed.
+
+(* the three printed components are in range and determine the wall time *)
+Theorem print_components t off :
+  let w := clock_of t off in
+  0 <= w / 3600 < 24 /\ 0 <= (w / 60) mod 60 < 60 /\ 0 <= w mod 60 < 60 /\
+  w = wall_of (w / 3600) ((w / 60) mod 60) (w mod 60).
+Proof. intro w. apply clock_parts. apply clock_of_ok. Qed.
+
+(* the text determines the wall time: different wall times print differently *)
+Lemma two_digits_inj a b : 0 <= a < 100 -> 0 <= b < 100 -> two_digits a = two_digits b -> a = b.
+Proof.
+  unfold two_digits. intros Ha Hb H. injection H as H1 H2. unfold digit in *. lia.
+Qed.
+
+Lemma clock_text_cons w :
+  clock_text w = digit (w / 3600 / 10) :: digit ((w / 3600) mod 10) :: 58%N ::
+                 digit ((w / 60) mod 60 / 10) :: digit (((w / 60) mod 60) mod 10) :: 58%N ::
+                 two_digits (w mod 60).
+Proof. reflexivity. Qed.
+
+Theorem clock_text_inj w1 w2 : wall_ok w1 -> wall_ok w2 -> clock_text w1 = clock_text w2 -> w1 = w2.
+Proof.
+  intros H1 H2 H.
+  destruct (clock_parts w1 H1) as (A1 & B1 & C1 & E1). destruct (clock_parts w2 H2) as (A2 & B2 & C2 & E2).
+  rewrite !clock_text_cons in H. injection H as Ha Hb Hc Hd Hs1 Hs2.
+  assert (Hh : w1 / 3600 = w2 / 3600).
+  { apply two_digits_inj; try lia. unfold two_digits. congruence. }
+  assert (Hm : (w1 / 60) mod 60 = (w2 / 60) mod 60).
+  { apply two_digits_inj; try lia. unfold two_digits. congruence. }
+  assert (Hs : w1 mod 60 = w2 mod 60).
+  { apply two_digits_inj; try lia. unfold two_digits. congruence. }
+  rewrite E1, E2, Hh, Hm, Hs. reflexivity.
+Qed.
+
+(* ------------------------------------------------------------------------------------- *)
+(* 2. the zone rules                                                                      *)
+(* ------------------------------------------------------------------------------------- *)
+Section WithNum.
+Context {F : Type} {NF : Num F}.
+Variable bexec : config F -> str -> res (option F).
+Variable vs : vars F.
+
+Definition zone_of (n : str) (o : Z) : tzinfo := {| tz_name := to_uppercase n; tz_off := o |}.
+
+Lemma field_token_has k fs tok : field_token vs (s k) fs = Some tok -> has k fs = true.
+Proof. unfold field_token, has, assoc_mem. destruct (assoc (s k) fs); [reflexivity | discriminate]. Qed.
+
+Lemma get_time_has k fs r : get_time vs (s k) fs = Some r -> has k fs = true.
+Proof.
+  unfold get_time. destruct (field_token vs (s k) fs) eqn:E; [|discriminate].
+  intros _. eapply field_token_has; eauto.
+Qed.
+
+Lemma get_timezone_has k fs r : get_timezone vs (s k) fs = Some r -> has k fs = true.
+Proof.
+  unfold get_timezone. destruct (field_token vs (s k) fs) eqn:E; [|discriminate].
+  intros _. eapply field_token_has; eauto.
+Qed.
+
+(* `T ZONE`: the wall time the literal shows in its own zone is re-read as wall time in ZONE *)
+Theorem with_timezone_anchors fs t cur n o :
+  get_time vs (s "time") fs = Some (t, cur) -> get_timezone vs (s "timezone") fs = Some (n, o) ->
+  time_with_timezone vs fs = Ok (Some (TTime (t + 60 * tz_off cur - 60 * o) (zone_of n o))).
+Proof.
+  intros Ht Hz. unfold time_with_timezone.
+  rewrite (get_time_has _ _ _ Ht), (get_timezone_has _ _ _ Hz), Ht, Hz. cbn [andb].
+  unfold some, zone_of. do 3 f_equal. ring.
+Qed.
+
+Corollary with_timezone_wall fs day w cur n o :
+  get_time vs (s "time") fs = Some (instant_of day w (tz_off cur), cur) ->
+  get_timezone vs (s "timezone") fs = Some (n, o) ->
+  time_with_timezone vs fs = Ok (Some (TTime (instant_of day w o) (zone_of n o))).
+Proof.
+  intros Ht Hz. rewrite (with_timezone_anchors _ _ _ _ _ Ht Hz). unfold instant_of. do 3 f_equal. ring.
+Qed.
+
+(* `X to ZONE`: the instant is kept, the display zone is swapped - times, dates, date-times *)
+Theorem convert_keeps_instant fs t z n o :
+  get_time vs (s "time") fs = Some (t, z) -> get_timezone vs (s "timezone") fs = Some (n, o) ->
+  convert_timezone vs fs = Ok (Some (TTime t (zone_of n o))).
+Proof.
+  intros Ht Hz. unfold convert_timezone.
+  rewrite (get_time_has _ _ _ Ht), (get_timezone_has _ _ _ Hz), Ht, Hz. reflexivity.
+Qed.
+
+(* the result does not depend on the zone the source was displayed in, nor on any configuration *)
+Corollary convert_ignores_source_zone fs fs' t z z' n o :
+  get_time vs (s "time") fs = Some (t, z) -> get_timezone vs (s "timezone") fs = Some (n, o) ->
+  get_time vs (s "time") fs' = Some (t, z') -> get_timezone vs (s "timezone") fs' = Some (n, o) ->
+  convert_timezone vs fs = convert_timezone vs fs'.
+Proof. intros. erewrite !convert_keeps_instant; eauto. Qed.
+
+(* ------------------------------------------------------------------------------------- *)
+(* 3. composition: what `T ZONE_A to ZONE_B` and `T to ZONE_B` print                      *)
+(* ------------------------------------------------------------------------------------- *)
+Theorem convert_shows day w cur na a nb b fs1 :
+  get_time vs (s "time") fs1 = Some (instant_of day w (tz_off cur), cur) ->
+  get_timezone vs (s "timezone") fs1 = Some (na, a) ->
+  let t1 := instant_of day w a in
+  time_with_timezone vs fs1 = Ok (Some (TTime t1 (zone_of na a))) /\
+  time_print t1 (zone_of na a) = clock_text (shown w a a) ++ 32%N :: to_uppercase na /\
+  forall fs2,
+    get_time vs (s "time") fs2 = Some (t1, zone_of na a) ->
+    get_timezone vs (s "timezone") fs2 = Some (nb, b) ->
+    convert_timezone vs fs2 = Ok (Some (TTime t1 (zone_of nb b))) /\
+    time_print t1 (zone_of nb b) = clock_text (shown w a b) ++ 32%N :: to_uppercase nb.
+Proof.
+  intros Ht Hz t1. split; [|split].
+  - apply (with_timezone_wall _ _ _ _ _ _ Ht Hz).
+  - rewrite print_clock. cbn [tz_off tz_name zone_of]. unfold t1. rewrite clock_of_instant. reflexivity.
+  - intros fs2 Ht2 Hz2. split.
+    + apply (convert_keeps_instant _ _ _ _ _ Ht2 Hz2).
+    + rewrite print_clock. cbn [tz_off tz_name zone_of]. unfold t1. rewrite clock_of_instant. reflexivity.
+Qed.
+
+(* source written without a zone: it is the default zone [cur] *)
+Theorem convert_default_shows day w cur nb b fs :
+  get_time vs (s "time") fs = Some (instant_of day w (tz_off cur), cur) ->
+  get_timezone vs (s "timezone") fs = Some (nb, b) ->
+  convert_timezone vs fs = Ok (Some (TTime (instant_of day w (tz_off cur)) (zone_of nb b))) /\
+  time_print (instant_of day w (tz_off cur)) (zone_of nb b)
+    = clock_text (shown w (tz_off cur) b) ++ 32%N :: to_uppercase nb.
+Proof.
+  intros Ht Hz. split.
+  - apply (convert_keeps_instant _ _ _ _ _ Ht Hz).
+  - rewrite print_clock. cbn [tz_off tz_name zone_of]. rewrite clock_of_instant. reflexivity.
+Qed.
+
+(* a literal prints its own wall time in its own zone *)
+Theorem literal_prints day w z : wall_ok w ->
+  time_print (instant_of day w (tz_off z)) z = clock_text w ++ 32%N :: tz_name z.
+Proof. intro H. rewrite print_clock, clock_of_instant, shown_same by exact H. reflexivity. Qed.
+
+Theorem item_print_time cfg lang now_year t tz :
+  item_print cfg lang now_year (ITime t tz : item F) = Ok (time_print t tz).
+Proof. reflexivity. Qed.
+
+(* ------------------------------------------------------------------------------------- *)
+(* 4. arithmetic                                                                          *)
+(* ------------------------------------------------------------------------------------- *)
+Lemma as_time_mod d : duration_as_time d = Z.abs d mod DAY_SECS.
+Proof.
+  unfold duration_as_time, DAY_SECS. change HOUR with 3600. change MINUTE with 60.
+  destruct (Z.leb_spec 3600 (Z.abs d)) as [H1|H1].
+  - destruct (Z.leb_spec 60 (Z.abs d mod 3600)) as [H2|H2]; lia.
+  - destruct (Z.leb_spec 60 (Z.abs d)) as [H2|H2]; lia.
+Qed.
+
+(* exactly what the model does; [dt_ok] is the range of chrono's NaiveDateTime (years +-262000) *)
+Theorem calc_time_duration cfg t tz d op :
+  calculate bexec cfg (ITime t tz : item F) (IDuration d) op =
+  let m := Z.abs d mod DAY_SECS in
+  let plus := if dt_ok (t + m) then Ok (Some (ITime (t + m) tz)) else Panic SITE_DT_ADD in
+  let minus := if dt_ok (t - m) then Ok (Some (ITime (t - m) tz)) else Panic SITE_DT_ADD in
+  if d <? 0 then minus
+  else match op with OAdd => plus | OSub => minus | _ => Ok None end.
+Proof.
+  cbn [calculate]. rewrite as_time_mod. cbv zeta.
+  unfold dt_sub, dt_add. replace (t + - (Z.abs d mod DAY_SECS)) with (t - Z.abs d mod DAY_SECS) by ring.
+  destruct (d <? 0); [|destruct op];
+    try destruct (dt_ok (t - Z.abs d mod DAY_SECS)); try destruct (dt_ok (t + Z.abs d mod DAY_SECS)); reflexivity.
+Qed.
+
+(* the clock moves by the duration modulo 24 h, in every display zone; the zone is kept *)
+Theorem calc_add_clock cfg t tz d t' tz' :
+  0 <= d ->
+  calculate bexec cfg (ITime t tz : item F) (IDuration d) OAdd = Ok (Some (ITime t' tz')) ->
+  tz' = tz /\ forall off, clock_of t' off = shift_add (clock_of t off) d.
+Proof.
+  intros Hd. rewrite calc_time_duration. cbv zeta.
+  destruct (Z.ltb_spec d 0) as [Hn|_]; [lia|].
+  destruct (dt_ok _); [|discriminate]. intro H. injection H as <- <-. split; [reflexivity|].
+  intro off. unfold clock_of, shift_add, DAY_SECS. rewrite Z.abs_eq by lia. lia.
+Qed.
+
+Theorem calc_sub_clock cfg t tz d t' tz' :
+  0 <= d ->
+  calculate bexec cfg (ITime t tz : item F) (IDuration d) OSub = Ok (Some (ITime t' tz')) ->
+  tz' = tz /\ forall off, clock_of t' off = shift_sub (clock_of t off) d.
+Proof.
+  intros Hd. rewrite calc_time_duration. cbv zeta.
+  destruct (Z.ltb_spec d 0) as [Hn|_]; [lia|].
+  destruct (dt_ok _); [|discriminate]. intro H. injection H as <- <-. split; [reflexivity|].
+  intro off. unfold clock_of, shift_sub, DAY_SECS. rewrite Z.abs_eq by lia. lia.
+Qed.
+
+(* a negative duration moves the clock back by its magnitude, whichever of + and - is written *)
+Theorem calc_negative_clock cfg t tz d op t' tz' :
+  d < 0 ->
+  calculate bexec cfg (ITime t tz : item F) (IDuration d) op = Ok (Some (ITime t' tz')) ->
+  tz' = tz /\ forall off, clock_of t' off = shift_sub (clock_of t off) (- d).
+Proof.
+  intros Hd. rewrite calc_time_duration. cbv zeta.
+  destruct (Z.ltb_spec d 0) as [_|Hn]; [|lia].
+  destruct (dt_ok _); [|discriminate]. intro H. injection H as <- <-. split; [reflexivity|].
+  intro off. unfold clock_of, shift_sub, DAY_SECS. rewrite Z.abs_neq by lia. lia.
+Qed.
+
+(* it always succeeds on instants of any plausible year *)
+Theorem calc_time_duration_total cfg t tz d op :
+  - 8 * 10 ^ 12 <= t <= 8 * 10 ^ 12 -> op = OAdd \/ op = OSub ->
+  exists t', calculate bexec cfg (ITime t tz : item F) (IDuration d) op = Ok (Some (ITime t' tz)).
+Proof.
+  intros Ht Hop. rewrite calc_time_duration. cbv zeta.
+  assert (Hm : 0 <= Z.abs d mod DAY_SECS < 86400) by (unfold DAY_SECS; lia).
+  assert (Hok : forall x, - 8 * 10 ^ 12 - 86400 <= x <= 8 * 10 ^ 12 + 86400 -> dt_ok x = true).
+  { intros x Hx. unfold dt_ok. change (MIN_DAY * 86400) with (-8334601228800).
+    change ((MAX_DAY + 1) * 86400) with 8210266876800. change (10 ^ 12) with 1000000000000 in Hx.
+    apply andb_true_iff. split; [apply Z.leb_le | apply Z.ltb_lt]; lia. }
+  rewrite !Hok by lia.
+  destruct (d <? 0); [eauto|]. destruct Hop as [-> | ->]; eauto.
+Qed.
+
+(* printed result, for a literal of wall time w in zone z *)
+Corollary calc_add_prints cfg day w z d t' tz' :
+  0 <= d ->
+  calculate bexec cfg (ITime (instant_of day w (tz_off z)) z : item F) (IDuration d) OAdd = Ok (Some (ITime t' tz')) ->
+  time_print t' tz' = clock_text (shift_add w d) ++ 32%N :: tz_name z.
+Proof.
+  intros Hd H. destruct (calc_add_clock _ _ _ _ _ _ Hd H) as [-> Hc].
+  rewrite print_clock, Hc, clock_of_instant. unfold shown, shift_add, DAY_SECS.
+  replace (w - 60 * tz_off z + 60 * tz_off z) with w by ring. rewrite Zplus_mod_idemp_l. reflexivity.
+Qed.
+
+Corollary calc_sub_prints cfg day w z d t' tz' :
+  0 <= d ->
+  calculate bexec cfg (ITime (instant_of day w (tz_off z)) z : item F) (IDuration d) OSub = Ok (Some (ITime t' tz')) ->
+  time_print t' tz' = clock_text (shift_sub w d) ++ 32%N :: tz_name z.
+Proof.
+  intros Hd H. destruct (calc_sub_clock _ _ _ _ _ _ Hd H) as [-> Hc].
+  rewrite print_clock, Hc, clock_of_instant. unfold shown, shift_sub, DAY_SECS.
+  replace (w - 60 * tz_off z + 60 * tz_off z) with w by ring. rewrite Zminus_mod_idemp_l. reflexivity.
+Qed.
+
+(* T1 to T2 *)
+Theorem to_duration_abs fs t1 z1 t2 z2 :
+  get_time vs (s "source") fs = Some (t1, z1) -> get_time vs (s "target") fs = Some (t2, z2) ->
+  to_duration vs fs = Ok (Some (TDuration (clock_diff t1 t2))).
+Proof.
+  intros H1 H2. unfold to_duration.
+  rewrite (get_time_has _ _ _ H1), (get_time_has _ _ _ H2), H1, H2. cbn [andb].
+  unfold some, clock_diff. do 3 f_equal. lia.
+Qed.
+
+(* two literals of the same day under the same default zone: the difference of the wall times *)
+Corollary to_duration_walls fs day w1 w2 z :
+  get_time vs (s "source") fs = Some (instant_of day w1 (tz_off z), z) ->
+  get_time vs (s "target") fs = Some (instant_of day w2 (tz_off z), z) ->
+  to_duration vs fs = Ok (Some (TDuration (clock_diff w1 w2))).
+Proof.
+  intros H1 H2. rewrite (to_duration_abs _ _ _ _ _ H1 H2). unfold clock_diff, instant_of. do 4 f_equal. ring.
+Qed.
+
+End WithNum.
